@@ -14,7 +14,8 @@ TRAIT_MEMBERS = '''
     spec fn wbytes() -> nat;          // counter width in bytes
     spec fn big_endian() -> bool;
     spec fn backend_val(v: Self::Backend) -> int;
-    proof fn lemma_backend_val(v: Self::Backend) ensures Self::backend_val(v) == <Self::Backend as StreamCipherCounter>::cval(v);
+    proof fn lemma_backend_val(v: Self::Backend) ensures Self::backend_val(v) == <Self::Backend as StreamCipherCounter>::cval(v),
+        0 <= Self::backend_val(v) < pow256(Self::wbytes());
     spec fn wf(cn: &Self::CtrNonce) -> bool;
     proof fn lemma_pos_range(cn: &Self::CtrNonce) ensures 0 <= Self::pos(cn) < pow256(Self::wbytes());
 '''
@@ -58,7 +59,7 @@ def flavor_members(cs, ty, be):
     open spec fn wbytes() -> nat { %(cs)d }
     open spec fn big_endian() -> bool { %(be)s }
     open spec fn backend_val(v: %(ty)s) -> int { v as int }
-    proof fn lemma_backend_val(v: %(ty)s) {}
+    proof fn lemma_backend_val(v: %(ty)s) { pow256_values(); }
     open spec fn wf(cn: &Self::CtrNonce) -> bool { true }
     proof fn lemma_pos_range(cn: &Self::CtrNonce) { pow256_values(); }
 ''' % {'cs': cs, 'idx': idx, 'enc': enc, 'be': 'true' if be else 'false', 'ty': ty}
